@@ -16,6 +16,8 @@ pub enum MVal {
     Unit,
     /// nested list: alias of list id
     Ref(usize),
+    /// f64 element (bit pattern); equality is IEEE equality
+    F(u64),
 }
 
 pub type ListId = usize;
@@ -33,6 +35,7 @@ impl Heap {
     pub fn val_eq(&self, a: &MVal, b: &MVal) -> bool {
         match (a, b) {
             (MVal::Ref(x), MVal::Ref(y)) => self.list_eq(*x, *y),
+            (MVal::F(x), MVal::F(y)) => f64::from_bits(*x) == f64::from_bits(*y),
             _ => a == b,
         }
     }
@@ -65,6 +68,10 @@ pub enum Op {
     /// script `if c { [a, b] } else { [b, a] }` (shape 0) or `if c { let t = [a, b]; return t; } [b, a]`
     /// (shape 1): two creation sites for one element type, only one of them executed
     BranchLit { dst: usize, c: bool, vals: Vec<MVal>, shape: u8 },
+    /// script `[a, b].get(i)`: `get` on a temporary list that nothing else holds
+    TmpGet { vals: Vec<MVal>, i: u64 },
+    /// Rust: start iterating (`into_iter`), take `k` items, push `v` through the handle, collect the rest
+    IterWithPush { h: usize, k: u64, v: MVal },
     /// script literal `[a, b, c, a, b, c, a, b, c]` (crosses two growth boundaries)
     Lit9 { dst: usize, vals: Vec<MVal> },
     CloneH { src: usize, dst: usize },
@@ -126,6 +133,7 @@ fn dbg_val(heap: &Heap, v: &MVal, out: &mut String) {
         MVal::Obj(p) => out.push_str(&format!("T24({p})")),
         MVal::Unit => out.push_str("Zst"),
         MVal::Ref(l) => dbg_list(heap, *l, out),
+        MVal::F(b) => out.push_str(&format!("{:?}", f64::from_bits(*b))),
     }
 }
 pub fn dbg_list(heap: &Heap, l: ListId, out: &mut String) {
@@ -163,6 +171,18 @@ impl SeqModel {
                 self.slots[*dst] = Some(id);
                 Obs::Unit
             }
+            Op::TmpGet { vals, i } => Obs::OptVal(vals.get(*i as usize).cloned()),
+            Op::IterWithPush { h, k, v } => match self.lid(*h) {
+                Some(id) => {
+                    let l = &mut self.heap.lists[id];
+                    let k = (*k as usize).min(l.len());
+                    let mut out: Vec<MVal> = l[..k].to_vec();
+                    l.push(v.clone());
+                    out.extend(l[k..].iter().cloned());
+                    Obs::Vals(out)
+                }
+                None => Obs::Skipped,
+            },
             Op::BranchLit { dst, c, vals, .. } => {
                 let v = if *c { vec![vals[0].clone(), vals[1].clone()] } else { vec![vals[1].clone(), vals[0].clone()] };
                 let id = self.heap.new_list(v);
